@@ -11,6 +11,7 @@ INVARIANT NoneRunningAtReturn
 INVARIANT ThreadIdsInPool
 INVARIANT UnlockedAtReturn
 INVARIANT Disjoint
+INVARIANT BelowTop
 INVARIANT ResvOnlyLocked
 INVARIANT TopIsSum
 INVARIANT OutComplete
